@@ -10,6 +10,7 @@ Features can be switched on through `feat`:
     bsbr   backslash-newline between tokens inside brackets
     blockish  continuation lines (or lines inside a triple-quoted string) starting with a compound-statement keyword
     adjstr adjacent string literals with no separator
+    fnl    a newline inside a replacement field of a single-quoted f-string (PEP 701)
     dotnum number literals starting with a dot (`.5`)
     kwdot  a float literal ending in its dot directly before a keyword (`3. else (c).r`)
     fromname identifiers ending in "from" followed by an attribute access (`date_from.year`)
@@ -197,6 +198,9 @@ class Gen:
         conv = self.ch(["", "", "", "!r", "!s", "="])
         spec = self.ch(["", "", "", ":>10", ":{%s}" % self.ch(NAMES[:6]), ":.2f", ":x"])
         sp = self.ch(["", "", " "])
+        if "fnl" in self.feat and len(q) == 1 and self.p(0.6):
+            sp = self.ch(["\x02", "\x02  "])          # placeholder for a newline (see fstring_text)
+            self.used.add("fnl")
         return "{" + sp + e + conv + spec + "}"
 
     def fstring_text(self, q=None, depth=0):
@@ -204,10 +208,10 @@ class Gen:
         pre = self.ch(FPREFIXES)
         raw = "r" in pre.lower()
         res = pre + q + self.str_body(q, raw, False, fstring=True, depth=depth) + q
-        return res.replace("\x01", q[0]) if depth == 0 else res
+        return res.replace("\x01", q[0]).replace("\x02", "\n") if depth == 0 else res
 
     def string(self):
-        if self.p(0.75 if ("fnest" in self.feat or "fbrace" in self.feat or "fquote" in self.feat) else 0.3):
+        if self.p(0.75 if ("fnest" in self.feat or "fbrace" in self.feat or "fquote" in self.feat or "fnl" in self.feat) else 0.3):
             return S(self.fstring_text())
         pre = self.ch(PREFIXES)
         q = self.ch(QUOTES)
@@ -373,8 +377,33 @@ class Gen:
         return "".join(out)
 
     # ------------------------------------------------------------------ statements
+    def raw_fstring(self):
+        """a valid raw f-string (every spelling of r+f), fields holding names, attribute chains and calls"""
+        pre = self.ch(["rf", "Rf", "rF", "RF", "fr", "Fr", "fR", "FR"])
+        q = self.ch(QUOTES)
+        other = '"' if q[0] == "'" else "'"
+        parts = []
+        for _ in range(self.r.randint(1, 4)):
+            parts.append(self.ch(["\\d+", "\\w", " ", "x=", "\\.", "a b", "\\\\", "{{}}"]) if self.p(0.5) else "")
+            chain = self.ch(NAMES[:12])
+            for _ in range(self.r.randint(0, 3)):
+                t = self.r.random()
+                if t < 0.55:
+                    chain += "." + self.ch(ATTRS)
+                elif t < 0.8:
+                    chain += "(%s)" % self.ch(["", "x", "a.b, y", "n0 + 1", other + "k" + other])
+                else:
+                    chain += "[%s]" % self.ch(["0", "i", other + "k" + other, "a.b"])
+            parts.append("{" + self.ch(["", " "]) + chain + self.ch(["", "", "!r", ":>10", ":{%s}" % self.ch(NAMES[:6]), "="]) + "}")
+        body = "".join(parts)
+        if len(q) == 3 and self.p(0.4):
+            body = body.replace("}{", "}\n{", 1)
+        return S(pre + q + body + q)
+
     def simple(self, in_def, d=2):
         k = self.r.random()
+        if self.p(0.06):
+            return [self.name(), "="] + [self.raw_fstring()] + ([".", self.attr()] if self.p(0.3) else [])
         if k < 0.30:
             tgt = self.primary(1) if self.p(0.4) else [self.name()]
             if tgt[-1] == ")" or not isinstance(tgt[0], W) or tgt[0][:1].isdigit() or tgt[0][:1] == ".":
